@@ -558,7 +558,18 @@ pub fn check(line: &str, res: &str) -> Vec<String> {
                     }
                 } else {
                     match xi.iter().position(|i| i == "io") {
-                        None => m.push("FAIL C06 a read error was swallowed: the reader failed but no I/O error was reported".into()),
+                        None => {
+                            // A read may fail after the delivered bytes have already determined the outcome
+                            // (the enclosing levels' end_seq keeps reading after an inner syntax error, and
+                            // the first error wins).  That is what the property allows, but only if the
+                            // outcome is the fault-free one and is a syntax error other than end of input.
+                            let strip = |v: &[String]| -> Vec<String> { v.iter().map(|s| strip_dat(s)).collect() };
+                            let determined = strip(&xi) == strip(&bi)
+                                && xi.last().map_or(false, |l| l.starts_with("err ") && !l.starts_with("err eof"));
+                            if !determined {
+                                m.push("FAIL C06 a read error was swallowed: the reader failed but no I/O error was reported".into());
+                            }
+                        }
                         Some(k) => {
                             let strip = |v: &[String]| -> Vec<String> { v.iter().map(|s| strip_dat(s)).collect() };
                             if k > bi.len() || strip(&xi[..k]) != strip(&bi[..k]) { m.push(format!("FAIL C06 items before the read error differ from the fault-free run: {:?} vs {:?}", xi, bi)); }
